@@ -22,7 +22,8 @@ CASES = {"quick": 1500, "thorough": 16000}
 
 FAMILIES = {"num": ["i", "f"], "time": ["d", "t"], "bool": ["b"], "str": ["s"], "obj": ["o"],
             # less common dtypes: bytes, timedelta, narrow integers, float32, legacy fixed-width strings, object bools
-            "bytes": ["y"], "delta": ["td"], "small": ["i8", "u8", "i"], "f32": ["f32", "f"], "ustr": ["u", "s"], "obool": ["ob"]}
+            "bytes": ["y"], "delta": ["td"], "small": ["i8", "u8", "i"], "f32": ["f32", "f"], "ustr": ["u", "s"], "obool": ["ob"],
+            "unsigned": ["u64", "i", "u64"]}           # uint64 next to int64: NumPy's common type is float64
 POOL = ["a", "b", "c", "d"]
 KINDS = ["f", "i", "b", "s", "u", "d", "t", "o", "td"]
 COMPAT = ["µg", "\u212bngstr\u00f6m", "\u2126", "ﬁeld", "ａ", "ｘ１", "ǆ", "ſ"]       # MICRO SIGN, ANGSTROM SIGN, OHM SIGN, ligature, full-width
